@@ -189,25 +189,29 @@ func (w *vbWorld) dispatch(nd *vbNode, a *BftAction) {
 func (w *vbWorld) pump(nd *vbNode) []vbMsgDesc {
 	s := nd.s
 	out := []vbMsgDesc{}
-	for round := 0; round < 1000; round++ {
-		progressed := false
-		for len(s.msgC) > 0 && nd.sealed == nil {
-			s.processMsgEvent()
-			progressed = true
-		}
-		for len(s.bftActionC) > 0 {
+	// strict priority, one item at a time: queued consensus messages, then BFT actions, then self-sent timer events
+	// (one of the interleavings the three goroutines of the real node can produce; the specification uses the same one)
+	for round := 0; round < 10000; round++ {
+		progressed := true
+		switch {
+		case len(s.msgC) > 0:
+			if nd.sealed == nil {
+				s.processMsgEvent()
+			} else {
+				<-s.msgC
+			}
+		case len(s.bftActionC) > 0:
 			a := <-s.bftActionC
 			if nd.sealed == nil {
 				w.dispatch(nd, a)
 			}
-			progressed = true
-		}
-		for len(s.timer.C) > 0 {
+		case len(s.timer.C) > 0:
 			evt := <-s.timer.C
 			if nd.sealed == nil {
 				w.timerEvent(nd, evt)
 			}
-			progressed = true
+		default:
+			progressed = false
 		}
 		for len(s.msgSendC) > 0 {
 			evt := <-s.msgSendC
@@ -216,14 +220,12 @@ func (w *vbWorld) pump(nd *vbNode) []vbMsgDesc {
 			d := w.describe(evt.Msg)
 			w.sent = append(w.sent, vbSent{from: s.Index, desc: d, data: data})
 			out = append(out, d)
-			progressed = true
 		}
 		for len(s.stateMgr.StateEventC) > 0 {
 			e := <-s.stateMgr.StateEventC
 			if e.Type == ForceCheckSync {
 				nd.resync = true
 			}
-			progressed = true
 		}
 		for len(s.syncer.syncCheckReqC) > 0 {
 			<-s.syncer.syncCheckReqC
@@ -363,6 +365,7 @@ func TestVerifVBNetReplay(t *testing.T) {
 	out := vhOpenOut()
 	defer out.Close()
 	net := vbNewNet(in.N, in.C, true)
+	net.withEmptyLedger()
 	isByz := map[int]bool{}
 	for _, b := range in.Byz {
 		isByz[b] = true
